@@ -117,7 +117,7 @@ pub fn err_class(e: &Error) -> &'static str {
 }
 
 enum Cmd {
-    Write(Vec<Vec<u8>>),
+    Write(Vec<Vec<u8>>, Option<tokio::sync::oneshot::Sender<()>>),
     Close,
 }
 
@@ -178,13 +178,13 @@ async fn do_send(conn: &mut Connection, t: &mut Toks<'_>) -> String {
     }
 }
 
-async fn run_script(cfg_flags: u64, peer_flags: u64, connect: bool, early: Vec<u8>, steps: Vec<String>) -> String {
+async fn run_script(cfg_flags: u64, peer_flags: u64, connect: bool, early: Vec<u8>, timeout_ms: Option<u64>, steps: Vec<String>) -> String {
     let host = host().to_string();
     let mut out: Vec<String> = Vec::new();
     let config = ConnectionConfig::new(format!("client@{host}"), format!("peer@{host}"), COOKIE)
         .with_epmd_host(host.clone())
         .with_flags(DistributionFlags::new(cfg_flags))
-        .with_timeout(Duration::from_millis(3000));
+        .with_timeout(Duration::from_millis(timeout_ms.unwrap_or(3000)));
     let mut conn = Connection::new(config);
     let wrote: Arc<Mutex<Vec<u8>>> = Arc::new(Mutex::new(Vec::new()));
     let (tx, mut rx) = tokio::sync::mpsc::unbounded_channel::<Cmd>();
@@ -211,13 +211,16 @@ async fn run_script(cfg_flags: u64, peer_flags: u64, connect: bool, early: Vec<u
             });
             while let Some(cmd) = rx.recv().await {
                 match cmd {
-                    Cmd::Write(chunks) => {
+                    Cmd::Write(chunks, ack) => {
                         for c in chunks {
                             if wr.write_all(&c).await.is_err() {
                                 break;
                             }
                             let _ = wr.flush().await;
                             tokio::task::yield_now().await;
+                        }
+                        if let Some(a) = ack {
+                            let _ = a.send(());
                         }
                     }
                     Cmd::Close => {
@@ -239,7 +242,15 @@ async fn run_script(cfg_flags: u64, peer_flags: u64, connect: bool, early: Vec<u
         match t.next() {
             "P" => {
                 let chunks: Vec<Vec<u8>> = t.next().split(',').map(unhex).collect();
-                let _ = tx.send(Cmd::Write(chunks));
+                if timeout_ms.is_some() {
+                    // paced histories (short receive timeout): the bytes are on the socket before the next step
+                    let (a, done) = tokio::sync::oneshot::channel();
+                    let _ = tx.send(Cmd::Write(chunks, Some(a)));
+                    let _ = done.await;
+                    tokio::time::sleep(Duration::from_millis(20)).await;
+                } else {
+                    let _ = tx.send(Cmd::Write(chunks, None));
+                }
             }
             "X" => {
                 let _ = tx.send(Cmd::Close);
@@ -286,7 +297,7 @@ async fn run_script(cfg_flags: u64, peer_flags: u64, connect: bool, early: Vec<u
     out.join(" ;; ")
 }
 
-/// `conn <cfg flags> <peer flags> <0|1 connect> ;; step ;; step ...`
+/// `conn <cfg flags> <peer flags> <0|1 connect> [E<hex>] [T<ms>] ;; step ;; step ...`
 pub fn run_case(line: &str) -> String {
     let mut parts = line.split(" ;; ");
     let head = parts.next().expect("head");
@@ -295,11 +306,20 @@ pub fn run_case(line: &str) -> String {
     let cfg_flags: u64 = t.num();
     let peer_flags: u64 = t.num();
     let connect = t.next() == "1";
-    // optional: E<hex> = bytes the peer sends in one write with its ack
-    let early = if t.peek_done() { Vec::new() } else { unhex(t.next().trim_start_matches('E')) };
+    // optional: E<hex> = bytes the peer sends in one write with its ack; T<ms> = the connection's timeout (default 3000)
+    let mut early = Vec::new();
+    let mut timeout_ms = None;
+    while !t.peek_done() {
+        let tok = t.next();
+        if let Some(ms) = tok.strip_prefix('T') {
+            timeout_ms = Some(ms.parse().expect("timeout ms"));
+        } else {
+            early = unhex(tok.trim_start_matches('E'));
+        }
+    }
     let steps: Vec<String> = parts.map(|s| s.to_string()).collect();
     let _ = host(); // binds the EPMD stand-in outside the runtime's block_on
-    runtime().block_on(run_script(cfg_flags, peer_flags, connect, early, steps))
+    runtime().block_on(run_script(cfg_flags, peer_flags, connect, early, timeout_ms, steps))
 }
 
 
